@@ -107,6 +107,7 @@ def main():
                 'actions': [dump_action(a, bp._mutually_exclusive_groups) for a in acts],
             })
         backends[b] = {'short_name': bt.short_name, 'module': bt.__module__, 'kwonly': kwonly, 'fields': fields,
+                       'class_name': bt.__name__, 'mro': [c.__module__.rsplit('.', 1)[-1] + ':' + c.__name__ for c in bt.__mro__[:-1]],
                        'other_actions': [dump_action(a, bp._mutually_exclusive_groups) for a in bp._actions
                                          if a.dest not in kwonly]}
     out['backends'] = backends
